@@ -59,12 +59,14 @@ MdNewNoRef == {[k |-> "new", m |-> m, d |-> d, ovf |-> ovf] : m \in {0, 1, 2, 4,
 MdNewRef == {[k |-> "new", m |-> m, d |-> d, ry |-> ry, ovf |-> ovf] :
                m \in {0, 2, 4, 9, 10, 13}, d \in {0, 1, 13, 14, 19, 28, 29, 30, 31}, ry \in {1972, 2021, 2024, 1900, 2000, -271821, 275760, 275761, I32Max, I32Min}, ovf \in Ovfs}
 \* (the value a default-constructed month-day / year-month is: one more route to 01-01 / 1970-01, canonical like the others)
-QMdRoutes == MdStrRoutes \cup MdFullStrRoutes \cup MdDateRoutes \cup MdNewNoRef \cup MdNewRef \cup {[k |-> "default"]}
+MdPartialRoutes == {[k |-> "partial", p |-> MkYmP(y, m, mc, d), ovf |-> ovf] : y \in {NA, 2021, 2024}, m \in {NA, 2, 12, 13}, mc \in {"-", "M02"}, d \in {NA, 28, 29, 31}, ovf \in Ovfs}
+QMdRoutes == MdStrRoutes \cup MdFullStrRoutes \cup MdDateRoutes \cup MdNewNoRef \cup MdNewRef \cup {[k |-> "default"]} \cup MdPartialRoutes
 MdRoutesTo(m, d) ==
   {[k |-> "str", f |-> "MM-DD", m |-> m, d |-> d], [k |-> "str", f |-> "--MMDD", m |-> m, d |-> d],
    [k |-> "date", d |-> Date(2020, m, d)], [k |-> "date", d |-> Date(2024, m, d)],
    [k |-> "new", m |-> m, d |-> d, ovf |-> "reject"], [k |-> "new", m |-> m, d |-> d, ry |-> 1972, ovf |-> "reject"],
-   [k |-> "new", m |-> m, d |-> d, ry |-> 2024, ovf |-> "reject"]}
+   [k |-> "new", m |-> m, d |-> d, ry |-> 2024, ovf |-> "reject"],
+   [k |-> "partial", p |-> [month |-> m, day |-> d], ovf |-> "reject"], [k |-> "partial", p |-> [year |-> 2024, month |-> m, day |-> d], ovf |-> "constrain"]}
 QMdCmpRoutes == MdRoutesTo(2, 29) \cup MdRoutesTo(2, 28) \cup MdRoutesTo(12, 31) \cup MdRoutesTo(1, 1) \cup {[k |-> "default"]}
 
 (* ---- arithmetic ---- *)
